@@ -9,6 +9,7 @@
   `Elements.from_typedef` (order, missing) → typed design.
 -/
 import CrCube.Lemmas.GlueResponse
+import CrCube.Lemmas.GlueItems
 import CrCube.Props.C01
 
 set_option linter.unusedSimpArgs false
@@ -229,11 +230,7 @@ theorem ca_as_0th_cases (ord : List String) (ci : Option Nat) (resp : J) (ts : L
     element of the first dimension -/
 theorem nslices_cases (ord : List String) (ci : Option Nat) (resp : J) (dims : List Dim) (ca0 : Bool)
     (hd : cubeDimensions ord resp = .ok dims) (hc : caAs0th ord ci resp = .ok ca0) :
-    nSlices ord ci resp =
-      if dims.length < 3 ∧ ca0 = false then .ok 1
-      else match dims with
-        | [] => .error .indexError
-        | d0 :: _ => d0.validIdxs.map List.length := by
+    nSlices ord ci resp = if dims.length < 3 ∧ ca0 = false then .ok 1 else headValidCount dims := by
   unfold nSlices ndim
   simp only [hd, R_bind_ok, R_pure, hc]
   by_cases h3 : dims.length < 3
@@ -247,6 +244,70 @@ theorem nslices_cases (ord : List String) (ci : Option Nat) (resp : J) (dims : L
     cases dims with
     | nil => rfl
     | cons d0 ds => cases d0.validIdxs <;> rfl
+
+/-- the head dimension of a variable: never MR_CAT; its valid idxs are those of the first typed axis -/
+theorem head_dim (v : RVar) (hw : v.WFP) :
+    ∃ d0 ds p ps, v.finalDims = d0 :: ds ∧ v.typed = p :: ps ∧ d0.dt ≠ .mrCat ∧
+      d0.validIdxs = .ok (validIdxs p.2) := by
+  have ht := typed_var v hw
+  have hne : ∃ d0 ds, v.finalDims = d0 :: ds ∧ d0.dt ≠ .mrCat := by
+    unfold RVar.finalDims RVar.dims RVar.types
+    cases v.kind <;> simp
+    cases v.transposed <;> simp
+  obtain ⟨d0, ds, hd, hdt⟩ := hne
+  rw [hd] at ht
+  simp only [mapR] at ht
+  obtain ⟨p, hp, ht⟩ := bind_eq_ok ht
+  obtain ⟨ps, _, ht⟩ := bind_eq_ok ht
+  simp only [R_pure, Except.ok.injEq] at ht
+  exact ⟨d0, ds, p, ps, hd, ht.symm, hdt, (shape_of_missingFlags (typedOf_fst hp).2).2⟩
+
+/-- the model's `firstDimCount` of the typed variable = number of valid idxs of its first typed axis -/
+theorem firstDim_typed (v : RVar) (ht : v.transposed = false) (p : DT × List Bool)
+    (ps : List (DT × List Bool)) (h : v.typed = p :: ps) (rest : List Var) :
+    firstDimCount (v.toTVar.var :: rest) = (validIdxs p.2).length := by
+  unfold RVar.typed at h
+  unfold RVar.toTVar firstDimCount
+  cases hk : v.kind <;> simp only [hk, ht, Bool.false_eq_true, if_false, List.cons.injEq] at h ⊢ <;>
+    (obtain ⟨rfl, _⟩ := h; rfl)
+
+/-- **the glue's slice count is the model's `nPartitions`** (the quantity C06.partitions_count is
+    about): for a rendered response without transposed arrays, not flagged single-column, analysed
+    with `cube_idx = None`, `Cube._slice_idxs` has as many entries as the existing model's
+    `nPartitions` of the decoded design. -/
+theorem render_nslices (ord : List String) (vars : List RVar) (re te : List (String × J))
+    (h : wfDesignB vars = true) (ht : ∀ v ∈ vars, v.transposed = false)
+    (hna : numericArrayDimension ord (renderResponse vars re te) = .ok none)
+    (hsc : re.lookup "is_single_col_cube" = none) :
+    nSlices ord none (renderResponse vars re te) = .ok (nPartitions ((designOf vars).map (·.var))) := by
+  obtain ⟨hw, _⟩ := wfDesign_unpack h
+  have hdims : cubeDimensions ord (renderResponse vars re te)
+      = .ok (apparent (vars.flatMap RVar.finalDims)) := by
+    simp [cubeDimensions, allDimensions_render vars re te ord h hna]
+  have hca : caAs0th ord none (renderResponse vars re te) = .ok false := by
+    simp [caAs0th, isSingleFilterCol, item_result, Glue.get, List.lookup, hsc, J.truthy]
+  rw [nslices_cases ord none _ _ false hdims hca]
+  have hlen : (apparent (vars.flatMap RVar.finalDims)).length
+      = (apparentKinds ((designOf vars).map (·.var))).length := by
+    rw [← designKinds_apparentKinds vars ht]
+    unfold designKinds designOf
+    rw [List.flatMap_map, ← types_kinds_all, ← flatMap_finalDims_types]
+    simp only [apparent, List.length_map]
+    rw [List.filter_map, List.length_map]
+    rfl
+  unfold nPartitions
+  rw [hlen]
+  by_cases h3 : (apparentKinds ((designOf vars).map (·.var))).length < 3
+  · simp [h3]
+  · simp only [h3, false_and, if_false]
+    cases vars with
+    | nil => simp [designOf, apparentKinds] at h3
+    | cons v vs =>
+      obtain ⟨d0, ds, p, ps, hd, hty, hdt, hvi⟩ := head_dim v (hw v List.mem_cons_self)
+      have hb : (d0.dt != DT.mrCat) = true := by simpa using hdt
+      simp only [List.flatMap_cons, hd, List.cons_append, apparent, List.filter_cons, hb, if_true, hvi,
+        Except.map, designOf, List.map_cons, headValidCount]
+      rw [firstDim_typed v (ht v List.mem_cons_self) p ps hty]
 
 /-! ## the respondent-level theorems apply to what the library parses -/
 
@@ -286,6 +347,68 @@ theorem counts_faithful_from_response_3d (loads : String → R J) (ord : List St
   ⟨designOf [t, r, c], decode_render loads ord [t, r, c] re te h hte hna,
     counts_faithful_3d _ _ _ hT hR hC s k i j hk hi hj⟩
 
+/-! ## array items flagged missing -/
+
+/-- the index the extractor reads for cell (i, j) in the payload -/
+theorem libSliceCounts_counts (tR tC : TVar) (hR : tR.var.CM) (hC : tC.var.CM) (payload : FT) (i j : Nat)
+    (hi : i < tR.var.ext) (hj : j < tC.var.ext) (hokR : tR.ok) (hokC : tC.ok) :
+    (libSliceCounts tR tC payload).counts i j
+      = payload.get (liftIdx [tR, tC] (tR.var.msub i ++ tC.var.msub j)) := by
+  have hrR := tR.var.msub_length i
+  have hrC := tC.var.msub_length j
+  have h1 : (tR.var.msub i ++ tC.var.msub j).take tR.var.rank = tR.var.msub i := by
+    rw [← hrR]; simp
+  have h2 : (tR.var.msub i ++ tC.var.msub j).drop tR.var.rank = tC.var.msub j := by
+    rw [← hrR]; simp
+  have h3 : (tC.var.msub j).take tC.var.rank = tC.var.msub j := by rw [← hrC]; simp
+  simp only [liftIdx, h1, h2, h3, List.append_nil]
+  rcases hR with hR | ⟨hR, hmR, _⟩ <;> rcases hC with hC | ⟨hC, hmC, _⟩
+  · simp [libSliceCounts, varDK, hR, hC, MatCounts.factory, MatCounts.catXcat, FT.take, TVar.libAxes,
+      TVar.liftSub, Var.msub]
+  · have hn := (hokC hC).1
+    simp only [Var.ext, hC] at hj
+    simp [libSliceCounts, varDK, hR, hC, hmC, MatCounts.factory, MatCounts.catXmr, FT.take, TVar.libAxes,
+      TVar.liftSub, Var.msub, hj]
+  · have hn := (hokR hR).1
+    simp only [Var.ext, hR] at hi
+    simp [libSliceCounts, varDK, hR, hC, hmR, MatCounts.factory, MatCounts.mrXcat, FT.take, TVar.libAxes,
+      TVar.liftSub, Var.msub, hi]
+  · simp only [Var.ext, hR, hC] at hi hj
+    simp [libSliceCounts, varDK, hR, hC, hmR, hmC, MatCounts.factory, MatCounts.mrXmr, FT.take,
+      TVar.libAxes, TVar.liftSub, Var.msub, hi, hj]
+
+/-- **Array items flagged missing never appear and never contribute** (2-D, any CAT / MR pairing):
+    run on the payload the back end tabulates over ALL items, the library's cell (i, j) — valid-element
+    selection on every axis, then the extractor — is the respondent-level count of the design with the
+    missing items removed, over the survey restricted to the remaining items.  (This is the step the
+    harness used to perform by hand: dropping missing items before handing a design to the model.) -/
+theorem missing_items_never_contribute (tR tC : TVar) (hokR : tR.ok) (hokC : tC.ok)
+    (hR : tR.var.CM) (hC : tC.var.CM) (wfR : tR.var.WF) (wfC : tC.var.WF) (s : Survey)
+    (hfit : SurveyFits [tR.full, tC.full] s) (i j : Nat) (hi : i < tR.var.ext) (hj : j < tC.var.ext) :
+    (libSliceCounts tR tC (cubeOf [tR.full, tC.full] s)).counts i j
+      = .fin (specCount [tR.var, tC.var] (reduceSurvey [tR, tC] s) [i, j] [false, false]) := by
+  rw [libSliceCounts_counts tR tC hR hC _ i j hi hj hokR hokC,
+    ← counts_faithful_2d tR.var tC.var hR hC _ i j hi hj, slice2d_counts tR.var tC.var hR hC]
+  have hix : InRange (rawShapeOf ([tR, tC].map (·.var))) (tR.var.msub i ++ tC.var.msub j) := by
+    simp only [List.map_cons, List.map_nil, rawShapeOf, List.flatMap_cons, List.flatMap_nil,
+      List.append_nil]
+    exact inRange_append _ _ _ _ (hR.msub_inRange wfR i hi) (hC.msub_inRange wfC j hj)
+  exact (cubeOf_reduce [tR, tC] (by
+    intro t ht
+    simp only [List.mem_cons, List.not_mem_nil, or_false] at ht
+    rcases ht with rfl | rfl <;> assumption) s hfit _ hix).symm
+
+/-- the typed variables `decode` produces satisfy `TVar.ok` (as many valid items as kept positions,
+    each inside the payload) -/
+theorem decoded_ok (v : RVar) : v.toTVar.ok := by
+  intro hk
+  unfold RVar.toTVar at hk ⊢
+  have hlt : ∀ k ∈ validIdxs v.itemFlags, k < v.items.length := by
+    intro k hk'
+    have := (List.mem_filter.mp hk').1
+    simpa [RVar.itemFlags] using this
+  cases hkind : v.kind <;> simp [hkind] at hk ⊢ <;> exact hlt
+
 /-! ## non-vacuity and worked instances -/
 
 /-- a categorical variable with a missing category in mid-payload, the typedef listing the
@@ -316,8 +439,8 @@ example : numericArrayDimension [] (renderResponse [exCat, exMR] [("measures", .
     = .ok none := rfl
 -- the typed design of the example: 3 raw categories (middle one missing), 2 valid items of 3
 example : designOf [exCat, exMR] =
-    [⟨⟨.cat, 3, [false, true, false], false⟩, false, []⟩,
-     ⟨⟨.arr, 2, [false, false, true], true⟩, false, [0, 2]⟩] := rfl
+    [⟨⟨.cat, 3, [false, true, false], false⟩, false, [], 0⟩,
+     ⟨⟨.arr, 2, [false, false, true], true⟩, false, [0, 2], 3⟩] := rfl
 -- same name, different alias: no promotion (CA_SUBVAR stays); same alias: promoted
 example : (fromDicts
     [.obj [("type", .obj [("class", .str "enum"), ("elements", .arr [.obj [("id", .num 1), ("value", .obj [])]]),
@@ -329,5 +452,49 @@ example : (fromDicts
            ("references", .obj [("alias", .str "b"), ("name", .str "same"),
                                 ("subreferences", .arr [.obj []])])]]).map (·.map (·.dt))
     = .ok [.caSubvar, .mrCat] := rfl
+
+
+-- same ALIAS (names differ): promoted to MR_SUBVAR
+example : (fromDicts
+    [.obj [("type", .obj [("class", .str "enum"), ("elements", .arr [.obj [("id", .num 1), ("value", .obj [])]]),
+                          ("subtype", .obj [("class", .str "variable")])]),
+           ("references", .obj [("alias", .str "a"), ("name", .str "x")])],
+     .obj [("type", .obj [("class", .str "categorical"),
+              ("categories", .arr [.obj [("id", .num 1), ("selected", .bool true)], .obj [("id", .num 0)],
+                                   .obj [("id", .num (-1))]])]),
+           ("references", .obj [("alias", .str "a"), ("name", .str "y"),
+                                ("subreferences", .arr [.obj []])])]]).map (·.map (·.dt))
+    = .ok [.mrSubvar, .mrCat] := rfl
+-- an element of the sub-variables dimension without "value": NOT promoted
+example : (fromDicts
+    [.obj [("type", .obj [("class", .str "enum"), ("elements", .arr [.obj [("id", .num 1)]]),
+                          ("subtype", .obj [("class", .str "variable")])]),
+           ("references", .obj [("alias", .str "a")])],
+     .obj [("type", .obj [("class", .str "categorical"),
+              ("categories", .arr [.obj [("id", .num 1), ("selected", .bool true)], .obj [("id", .num 0)],
+                                   .obj [("id", .num (-1))]])]),
+           ("references", .obj [("alias", .str "a"), ("subreferences", .arr [.obj []])])]]).map (·.map (·.dt))
+    = .ok [.caSubvar, .mrCat] := rfl
+-- ids [1, 0, -1] WITHOUT `selected`: a plain CAT; `selected` with other ids: CAT; a date on the LAST category only: CAT_DATE
+example : dimensionType (.obj [("type", .obj [("class", .str "categorical"),
+    ("categories", .arr [.obj [("id", .num 1)], .obj [("id", .num 0)], .obj [("id", .num (-1))]])])]) = .ok .cat := rfl
+example : dimensionType (.obj [("type", .obj [("class", .str "categorical"),
+    ("categories", .arr [.obj [("id", .num 1), ("selected", .bool true)], .obj [("id", .num 0)], .obj [("id", .num 2)]])])])
+    = .ok .cat := rfl
+example : dimensionType (.obj [("type", .obj [("class", .str "categorical"),
+    ("categories", .arr [.obj [("id", .num 1)], .obj [("id", .num 5), ("date", .str "2020-01")]])])]) = .ok .catDate := rfl
+-- `order` with an unknown and a duplicate code: unknown skipped, duplicate listed twice (shape 3 from 2 categories)
+example : (elementDefs (.obj [("class", .str "categorical"),
+    ("categories", .arr [.obj [("id", .num 1)], .obj [("id", .num 2), ("missing", .bool true)]]),
+    ("order", .arr [.num 2, .num 99, .num 1, .num 2])])).map List.length = .ok 3 := rfl
+-- missing items: hypotheses of `missing_items_never_contribute` on the example design (item 1 of 3 missing)
+example : exMR.toTVar.ok ∧ exCat.toTVar.ok ∧ exMR.toTVar.var.WF ∧ exCat.toTVar.var.WF ∧
+    SurveyFits [exCat.toTVar.full, exMR.toTVar.full] [⟨2, [[2], [0, 1, 0]]⟩, ⟨1/2, [[0], [1, 0, 2]]⟩] := by
+  refine ⟨decoded_ok _, decoded_ok _, ?_, ?_, ?_⟩
+  · intro h; cases h
+  · intro _; rfl
+  · intro r hr
+    simp only [List.mem_cons, List.not_mem_nil, or_false] at hr
+    rcases hr with rfl | rfl <;> decide
 
 end CrCube.C01
